@@ -124,6 +124,25 @@ func (c c10Case) build() (*genesis.Rules, *chain.Transaction) {
 	return rules, tx
 }
 
+
+// c10SwitchFactory is a rule factory with a scheduled change: rules a before `at`, rules b from then on.
+type c10SwitchFactory struct {
+	a, b *genesis.Rules
+	at   int64
+}
+
+func (f *c10SwitchFactory) GetRules(t int64) chain.Rules {
+	if t < f.at {
+		return f.a
+	}
+	return f.b
+}
+
+type c10SwGroup struct {
+	pe *chain.PreExecutor
+	rf *c10SwitchFactory
+}
+
 func c10Activated(s, e, ts int64) bool {
 	return (s < 0 || s <= ts) && (e < 0 || ts <= e)
 }
@@ -172,6 +191,8 @@ func TestVerifC10(t *testing.T) {
 	im := chaintest.NewInMemoryStore()
 	mm := metadata.NewDefaultManager()
 	feeKey := string(chain.FeeKey(mm.FeePrefix()))
+	swGroups := map[string]*c10SwGroup{}
+	swAt := int64(0) // the scheduled rule change of all `admsw` groups: 1.5 s after the first admsw line
 	for _, l := range lines {
 		f := verifh.Fields(l)
 		switch {
@@ -232,6 +253,52 @@ func TestVerifC10(t *testing.T) {
 			if got != "ok" && clause == "" {
 				r.Violation("c10-rejected-valid-"+strings.SplitN(got, ":", 2)[0], "PreExecute returned %s although every clause of the statement holds: %s", got, l)
 			}
+		case f[0] == "admsw" && len(f) == 9 && (f[2] == "before" || f[2] == "after"):
+			delta, wa, ma, wb, mb, n := verifh.I(f[3]), verifh.I(f[4]), verifh.U(f[5]), verifh.I(f[6]), verifh.U(f[7]), int(verifh.U(f[8]))
+			if ma > 255 || mb > 255 || n > 1024 {
+				r.Emit(l, "bad-op")
+				continue
+			}
+			if swAt == 0 {
+				swAt = time.Now().UnixMilli() + 1500
+			}
+			g := swGroups[f[1]]
+			if g == nil { // one PreExecutor per group, used for its `before` and its `after` submissions
+				mk := func(w int64, m uint64) *genesis.Rules {
+					c := c10Case{window: w, ruleChain: 1, maxActions: m}
+					rules, _ := c.build()
+					return rules
+				}
+				g = &c10SwGroup{rf: &c10SwitchFactory{a: mk(wa, ma), b: mk(wb, mb), at: swAt}}
+				g.pe = chain.NewPreExecutor(g.rf, &validitywindowtest.MockTimeValidityWindow[*chain.Transaction]{}, mm, bh)
+				swGroups[f[1]] = g
+			}
+			if f[2] == "before" && time.Now().UnixMilli() > swAt-300 {
+				r.Emit(l, "bad-op") // too late for a submission before the change (replay of a partial script)
+				continue
+			}
+			if f[2] == "after" {
+				if d := swAt + 100 - time.Now().UnixMilli(); d > 0 {
+					time.Sleep(time.Duration(d) * time.Millisecond)
+				}
+			}
+			now := time.Now().UnixMilli()
+			c := c10Case{txChain: 1, ruleChain: 1, authS: -1, authE: -1, expiry: (now+999)/1000*1000 + delta}
+			for i := 0; i < n; i++ {
+				c.acts = append(c.acts, [2]int64{-1, -1})
+			}
+			_, tx := c.build()
+			st := map[string][]byte{feeKey: {}, string(bh.BalanceKey(tx.Auth.Sponsor())): binary.BigEndian.AppendUint64(nil, math.MaxUint64)}
+			got := c10Class(g.pe.PreExecute(ctx, nil, state.ImmutableStorage(st), tx))
+			r.Emit(l, got)
+			r.Distinct(l)
+			// oracle: the rules in force at the time of the submission decide
+			cur := g.rf.GetRules(time.Now().UnixMilli()).(*genesis.Rules)
+			c.window, c.maxActions = cur.ValidityWindow, uint64(cur.MaxActionsPerTx)
+			clause, _ := c.statement(time.Now().UnixMilli())
+			if got == "ok" && clause != "" && clause != "not-expired" {
+				r.Violation("c10-admission-stale-rules-"+clause, "admitted after the scheduled rule change although clause %q fails under the rules now in force (window %d, max actions %d): %s", clause, c.window, c.maxActions, l)
+			}
 		case f[0] == "admission":
 			c, ok := c10Parse(f[1:])
 			if !ok || f[2] != "-" {
@@ -272,9 +339,16 @@ func TestVerifC10(t *testing.T) {
 	}
 }
 
+// c10SwCases: rule changes (window A, max A) -> (window B, max B); for each a submission before the
+// change that the old rules admit, and submissions after it that only the old rules would admit.
+var c10SwCases = [][4]int64{{60_000, 16, 10_000, 16}, {60_000, 16, 60_000, 2}, {10_000, 4, 60_000, 16}, {60_000, 16, 5_000, 1}}
+
 func c10Generate(r *verifh.Run) []string {
 	var out []string
 	add := func(format string, a ...any) { out = append(out, fmt.Sprintf(format, a...)) }
+	for g, sc := range c10SwCases { // first lines: they must run before the scheduled change
+		add("admsw %d before 30000 %d %d %d %d 3", g, sc[0], sc[1], sc[2], sc[3])
+	}
 	const mx = math.MaxInt64
 	const mn = math.MinInt64
 	// corpus: int64 overflow of ts+window (model: wrap64), negative values, Go's % on negatives
@@ -352,6 +426,16 @@ func c10Generate(r *verifh.Run) []string {
 					add("pre %s", c.args())
 				}
 			}
+		}
+	}
+	// action counts that are small modulo 256 (the limit is a uint8; the count is not)
+	for _, max := range []uint64{0, 1, 16, 255} {
+		for _, n := range []int{255, 256, 257, 256 + int(max), 256 + int(max) + 1, 272, 512, 513, 768 + int(max)} {
+			c := c10Case{expiry: 1000, ts: 1000, window: 60_000, txChain: 1, ruleChain: 1, maxActions: max, authS: -1, authE: -1}
+			for i := 0; i < n; i++ {
+				c.acts = append(c.acts, [2]int64{-1, -1})
+			}
+			add("pre %s", c.args())
 		}
 	}
 	// random
@@ -444,6 +528,11 @@ func c10Generate(r *verifh.Run) []string {
 				add("admission %s", strings.Join(a, " "))
 			}
 		}
+	}
+	for g, sc := range c10SwCases { // last lines: after the change
+		add("admsw %d after 30000 %d %d %d %d 3", g, sc[0], sc[1], sc[2], sc[3])
+		add("admsw %d after 3000 %d %d %d %d 3", g, sc[0], sc[1], sc[2], sc[3])
+		add("admsw %d after 3000 %d %d %d %d 1", g, sc[0], sc[1], sc[2], sc[3])
 	}
 	return out
 }
